@@ -12,7 +12,7 @@
     are recorded from the C program, and the boolean [spec_ok_C18] judges both.
 
     The theorems are about the C with the four proposed fixes (fixes/C18-*.diff); which code
-    exists is read from the C on every run (Gen/GenStarttls.v: ST_CHECKS_PENDING,
+    exists is read from the C on every run (Gen/GenStarttls.v: ST_PURGES,
     ST_QUITMSG_RESETS_ROUTE, ST_QIN_FREES_SSL, ST_PINNED_NEEDS_TLS); without a fix the lemma
     fix_... of Proofs/TlsSwitchProofs.v fails. *)
 From Qv Require Import Common.Bytes Gen.GenStarttls Model.NetRead Model.TlsSwitch Spec.TlsSwitchSpec
@@ -31,14 +31,14 @@ Theorem C18_spec_holds : forall k, class_wrong_host k = false -> spec_ok_C18 k (
 Proof. exact model_spec_ok. Qed.
 Print Assumptions C18_spec_holds.
 
-(** 2. For EVERY case: the handshake is started with an empty line buffer, at most once per
-    connection; reading goes through TLS exactly from the successful handshake on; a line
-    obtained through TLS is a piece of what the TLS session of that connection delivered, cut
-    at a CRLF at exactly the position the reader is at (so nothing that arrived in clear, with
-    or after the 220, is ever taken for a reply). *)
+(** 2. For EVERY case: a handshake is started at most once per connection; reading goes through
+    TLS exactly from the successful handshake on; a line obtained through TLS is a piece of what
+    the TLS session of that connection delivered, cut at a CRLF at exactly the position the
+    reader is at: whatever the line buffer held when the handshake started (clear text that
+    came with or after the 220) is never taken for a reply. *)
 Theorem C18_in_tls_only : forall k pre post,
   (forall p h, trace k = pre ++ EvHs p h :: post ->
-     p = 0 /\ ~ hs_done (since_conn pre) /\ ~ hs_failed (since_conn pre)) /\
+     ~ hs_done (since_conn pre) /\ ~ hs_failed (since_conn pre)) /\
   (forall t it lft, trace k = pre ++ EvR t it lft :: post ->
      (t = true <-> hs_done (since_conn pre)) /\
      (forall l, it = RLine l -> t = true ->
@@ -92,8 +92,7 @@ Print Assumptions C18_route_cert.
 
 (** 6. For EVERY case: no half-switched connection.  Writing goes through TLS exactly from the
     successful handshake on; after a failed handshake the only thing written is QUIT and the
-    transmission is never started; answers other than a single- or multi-line 220 never lead to
-    a handshake (by 2: a handshake event needs the checks of tls_init() passed, see the model). *)
+    transmission is never started. *)
 Theorem C18_no_half_switch : forall k pre post,
   (forall t b, trace k = pre ++ EvW t b :: post ->
      (t = true <-> hs_done (since_conn pre)) /\ (hs_failed (since_conn pre) -> b = ST_CMD_QUIT)) /\
@@ -116,18 +115,17 @@ Theorem C18_checker_sound : forall k tr, spec_ok_C18 k tr = true -> C18_trace_ok
 Proof. exact (checker_sound own_tlsa). Qed.
 Print Assumptions C18_checker_sound.
 
-(** Non-vacuity: a case in which the server answers STARTTLS with "220 g" followed, in the same
-    segment, by a forged EHLO answer; the second MX behaves.  The run refuses the first MX
-    without a handshake, upgrades on the second and starts the transmission inside TLS. *)
+(** Non-vacuity: the server answers STARTTLS with "220 g" followed, in the same segment, by a
+    forged EHLO answer offering PIPELINING; inside TLS it answers "250 a".  The run upgrades
+    (23 bytes buffered when the handshake starts), starts the transmission inside TLS with
+    smtpext = 0 (nothing of the forged answer), and the checker accepts the event list. *)
 Definition nv_inject : bytes :=
   w_go ++ [50; 53; 48; 45; 120; 13; 10; 50; 53; 48; 32; 80; 73; 80; 69; 76; 73; 78; 73; 78; 71; 13; 10]%N.
 Definition nv_case : tcase :=
-  mkCase true
-    [ mkConn true true true false [] 0 0 [w_banner; w_ehlo_tls; nv_inject] [] [w_in_tls];
-      mkConn true true true false [] 0 0 [w_banner; w_ehlo_tls; w_go] [] [w_in_tls] ].
+  mkCase true [ mkConn true true true [] 0 0 [w_banner; w_ehlo_tls; nv_inject] [] [w_in_tls] ].
 Example C18_nonvacuous :
   class_wrong_host nv_case = false /\
-  existsb (fun e => match e with EvMail true _ => true | _ => false end) (trace nv_case) = true /\
-  length (filter (fun e => match e with EvHs _ _ => true | _ => false end) (trace nv_case)) = 1 /\
+  existsb (fun e => match e with EvMail true 0%N => true | _ => false end) (trace nv_case) = true /\
+  existsb (fun e => match e with EvHs 23 0%N => true | _ => false end) (trace nv_case) = true /\
   spec_ok_C18 nv_case (trace nv_case) = true.
 Proof. vm_compute. repeat split. Qed.
